@@ -145,11 +145,11 @@ TReset ==
     /\ alive' = TRUE /\ stale' = FALSE /\ phase' = "idle"
     /\ last' = NoLast /\ used' = {} /\ ended' = {} /\ reply' = "none"
     /\ nc' = 0 /\ nf' = 0 /\ nn' = 0
-    /\ UNCHANGED <<KS, User>>
+    /\ UNCHANGED <<KS, User, sps>>
     /\ l' = l
     /\ tid' = Trace[l].t
 
-TraceNext == \/ (TStart \/ TCmd \/ TGet \/ TGetErr \/ TOp \/ TClose \/ TPut \/ TReply \/ TNsChange \/ TNsChangeBusy) /\ UNCHANGED tid
+TraceNext == \/ (TStart \/ TCmd \/ TGet \/ TGetErr \/ TOp \/ TClose \/ TPut \/ TReply \/ TNsChange \/ TNsChangeBusy) /\ UNCHANGED <<tid, sps>>
              \/ TReset
 
 TraceSpec == TraceInit /\ tid = Trace[1].t /\ [][TraceNext]_tvars
